@@ -124,7 +124,7 @@ def main(argv=None):
 
     jobs = []
     for w in range(worlds):
-        jobs.append(('main', w, None, ['--runs', '0:%d' % runs, '--det', str(det)]))
+        jobs.append(('main', w, None, ['--runs', '0:%d' % runs, '--det', str(det), '--extra-shard', '%d/%d' % (w, worlds)]))
     if det:
         for w in range(min(2, worlds)):
             jobs.append(('det', w, None, ['--runs', '0:%d' % det, '--det', str(det), '--batch', '1',
